@@ -406,7 +406,7 @@ ValueType bufr_encoding_to_valtype( BufrValueEncoding *be )
                return VALTYPE_INT32; 
             else if (be->nbits + rb <= 32)
                return VALTYPE_INT32;
-            else if(be->nbits + rb <= 64)
+            else if((be->nbits <= 62)&&(rb <= 62))   /* value = raw + reference fits an int64_t; a double (FLTDEFAULT) cannot be encoded beyond 32 bits */
                return VALTYPE_INT64;
             }
 			return VALTYPE_FLTDEFAULT;
